@@ -892,6 +892,17 @@ def _truthiness_operands(test: ast.AST) -> List[ast.AST]:
 @rule("GEN.zerofalsy", ALL_PROPS, "an address/offset is tested with `is None`, never by truthiness (0 is a valid address)", 1, scoped=True)
 def gen_zerofalsy(ctx: Ctx):
     n = 0
+    # attributes declared `Optional[int]` anywhere in the package: None means absent, 0 is a value
+    optint = set()
+    for m in ctx.repo.mods.values():
+        for a in ast.walk(m.tree):
+            if isinstance(a, ast.AnnAssign) and src(a.annotation) in ("Optional[int]", "int | None", "typing.Optional[int]"):
+                t = a.target
+                if isinstance(t, ast.Name):
+                    optint.add(t.id)
+                elif isinstance(t, ast.Attribute):
+                    optint.add(t.attr)
+    optint -= {"lineno"}  # 1-based: 0 is not a line
     for q, fi in sorted(ctx.repo.funcs.items()):
         if q.startswith(("driver.", "assembler.__main__")):
             continue
@@ -906,7 +917,11 @@ def gen_zerofalsy(ctx: Ctx):
                 continue
             for op in [o for t in tests for o in _truthiness_operands(t)]:
                 n += 1
-                if isinstance(op, ast.Attribute) and op.attr in ("address", "offset", "displacement"):
+                if isinstance(op, ast.Attribute) and op.attr in optint and op.attr not in ("address", "offset", "displacement"):
+                    ctx.fail(fi, node, f"`{src(op)}` used as a truth value",
+                             f"`{op.attr}` is declared Optional[int]: None means 'not given', 0 is a legitimate value (register/column 0, no adjustment) that this test treats as absent",
+                             key=f"{q}::zerofalsy::{src(op)}")
+                elif isinstance(op, ast.Attribute) and op.attr in ("address", "offset", "displacement"):
                     ctx.fail(fi, node, f"`{src(op)}` used as a truth value",
                              f"`{src(op)}` is an integer that may be 0 (a module laid out from address 0, the first block of an interval): the test treats 0 like None, "
                              "so a valid request is refused (AssertionError) or takes the 'absent' branch",
